@@ -215,9 +215,17 @@ def roundtrip_cases(draw):
 @st.composite
 def mismatch_cases(draw):
     spec = draw(specs())
-    other = {**spec, "arch": dict(spec["arch"])}
     ints = [k for k, v in spec["arch"].items() if isinstance(v, int) and k != "epsilon"]
-    changed = draw(st.sampled_from(ints + ["obs_dim", "act_dim", "swap"]))
+    square = draw(st.booleans())
+    if square:
+        # all hidden layers square and of one width, only a depth differs: consecutive leaves have identical shapes, so a
+        # checkpoint with more (or fewer) layers is only rejected if the loader notices missing / left-over leaves
+        w = draw(st.integers(2, 5))
+        for k in ints:
+            if not k.endswith("depth"):
+                spec["arch"][k] = w
+    other = {**spec, "arch": dict(spec["arch"])}
+    changed = draw(st.sampled_from([k for k in ints if k.endswith("depth")] if square else ints + ["obs_dim", "act_dim", "swap"]))
     if changed == "obs_dim":
         other["obs_dim"] = spec["obs_dim"] % 3 + 1
     elif changed == "act_dim":
@@ -228,7 +236,10 @@ def mismatch_cases(draw):
     else:
         changed = ints[0] if changed == "swap" else changed
         other["arch"][changed] = spec["arch"][changed] + draw(st.sampled_from([1, 2]))
-    return {"spec": spec, "other": other, "changed": changed, "key": draw(st.integers(0, 2**31 - 100))}
+    if draw(st.booleans()):  # also the other direction: the checkpoint holds the larger / deeper policy
+        spec, other = other, spec
+        changed = changed + "-reversed"
+    return {"spec": spec, "other": other, "changed": changed + ("-square" if square else ""), "key": draw(st.integers(0, 2**31 - 100))}
 
 
 def run(ctx: Ctx):
@@ -238,7 +249,7 @@ def run(ctx: Ctx):
         "spellings (with/without .eqx, nested not-yet-existing directories, spaces, paths already holding an older checkpoint of the same or another architecture; foreign dotted suffixes must at least fail "
         "loudly) in fresh temporary directories: serialize -> deserialize with the same arguments and another key => every array "
         "leaf bit-identical (dtype, shape, bytes), equal outputs; mismatch pairs (one architecture argument / observation or action "
-        "dimension changed, or two arguments swapped) must raise. Non-trivial: loaded leaves differ from a fresh skeleton's in "
+        "dimension changed, or two arguments swapped; in both directions; also all-square layers with only a depth changed) must raise. Non-trivial: loaded leaves differ from a fresh skeleton's in "
         "every float leaf / mismatch with different leaf shapes."
     )
     ctx.assumptions = ["Python-scalar hyper-parameters are compared at float32 precision (they pass through jax.debug.callback)", "temporary directories under the system temp dir"]
